@@ -361,6 +361,13 @@ def replay(pid, path):
     with open(path) as f:
         data = json.load(f)
     sc = data.get("scenario")
+    if not sc and pid in decision_props():
+        import decide
+        import time as _t
+        print(f"replaying the decision inputs of {pid} (tier {data.get('tier', 'quick')}, seed {data.get('seed', 1)})")
+        rc = decide.run_check(pid, data.get("tier", "quick"), int(data.get("seed", 1)), _t.time())
+        # (the evidence file is rewritten by this run like by any run of the check)
+        return rc
     if not sc:
         print("replay file holds no scenario")
         return 2
